@@ -363,10 +363,22 @@ func boundGrid(typ string, fd int, parent numref.Set, rich bool) []string {
 	near(bt.Hi)
 	if fd == 0 {
 		near(big.NewInt(0))
+		if bt.Lo.Sign() < 0 {
+			add("-0") // a valid spelling of 0
+		}
 	} else {
 		addM(big.NewInt(0))
 		addM(numref.Pow10(fd))
 		addM(new(big.Int).Neg(numref.Pow10(fd)))
+		// bounds written short (as integers) whose value lies far beyond the type at high fraction-digits:
+		// about twice and ten times the decimal64 maximum and more, where a wrapped product looks innocent
+		for _, v := range []string{"2", "10", "20", "93", "100", "1844674407370955162", "3689348814741910324", "10000000000000000000"} {
+			m := new(big.Int).Mul(bi(v), numref.Pow10(fd))
+			addM(m)
+			if rich {
+				addM(new(big.Int).Neg(m))
+			}
+		}
 	}
 	if rich {
 		for _, p := range parent {
